@@ -390,8 +390,9 @@ func (c *Checker) CheckSource(sourceName string, source string) (compiler.Compil
 	// to restore it in case of errors
 	envCopy := c.runtimeEnv.DeepCopyEnv()
 	localEnvsCopy := c.deepCopyLocalEnvs(c.runtimeEnv, envCopy)
-	constantScopesCopy := c.deepCopyConstantScopes(c.runtimeEnv, envCopy)
-	methodScopesCopy := c.deepCopyMethodScopes(c.runtimeEnv, envCopy)
+	usingBuffers := make(usingBufferCopies)
+	constantScopesCopy := c.deepCopyConstantScopes(c.runtimeEnv, envCopy, usingBuffers)
+	methodScopesCopy := c.deepCopyMethodScopes(c.runtimeEnv, envCopy, usingBuffers)
 	c.methodScopesCopyCache = nil
 	c.constantScopesCopyCache = nil
 	// the compiler of the last successfully compiled chunk,
